@@ -60,6 +60,7 @@ static void state(JW &w, const App &a) {
     w.key("at").arr(); for (int i = 0; i < 2; ++i) w.boolean(a.at[i]); w.end_arr();
     w.key("al").arr(); for (int i = 0; i < 8; ++i) w.num(a.al[i]); w.end_arr();
     w.key("ab").arr(); for (int i = 0; i < 8; ++i) w.boolean(a.ab[i]); w.end_arr();
+    w.key("a2x").arr(); for (int i = 0; i < 3; ++i) w.num(a.a2x[i]); w.end_arr();
     w.kbool("fx_on", a.fx_on).key("fx"); if (!a.fx) w.raw("{\"null\":true}"); else { w.obj().kbool("null", false).knum("gain", a.fx->gain).knum("level", a.fx->level).knum("type", a.fx->type).key("voice").arr(); for (int i = 0; i < 2; ++i) w.obj().knum("vol", a.fx->voice[i].vol).end_obj(); w.end_arr().end_obj(); }
     w.kbool("sub_on", a.sub_on); sub_state(w, "sub", &a.sub); w.key("subs").arr(); for (int i = 0; i < 2; ++i) { w.obj(); w.kbool("null", false).knum("si", a.subs[i].si).knum("sf", q4(a.subs[i].sf)).kbool("st", a.subs[i].st).key("sa").arr().num(a.subs[i].sa[0]).num(a.subs[i].sa[1]).end_arr().end_obj(); } w.end_arr();
     w.kbool("palloc", a.palloc); sub_state(w, "psub", a.psub); w.knum("preset_b", a.preset_b).key("osc").obj().knum("gain", a.osc.gain).end_obj().knum("osc_type", a.osc_type); w.end_obj();
@@ -186,7 +187,7 @@ static void run_script(const J &script, FILE *out) {
                 w.knum("ret", rv).knum("hook_calls", hd.seen).key("vers").arr(); for (int q = 0; q < 12; ++q) w.num(hd.vers[q]); w.end_arr().key("loaded"); state(w, fresh); }
             else if (k == "load" || k == "loadraw") { std::string text;
                 if (k == "load") { text = header(); for (auto &l : op["lines"].a) text += l.s + "\n"; w.key("lines").arr(); for (auto &l : op["lines"].a) w.str(l.s); w.end_arr(); }
-                else { text = op["text"].s; w.kstr("text", text); }
+                else { text = op["text"].s; w.kstr("text", text).kbool("any_result", op.has("any_result") && op["any_result"].b); }
                 App fresh; FlushBuf tb(text.size() + 1); memcpy(tb.p, text.c_str(), text.size() + 1);
                 int rv = load_from_file((const char *)tb.p, App::ports, &fresh, APPNAME, APPVER);
                 w.knum("ret", rv).key("loaded"); state(w, fresh); }
